@@ -249,6 +249,11 @@ func generate(family string, n int, seed uint64, out *bufio.Writer) {
 			steps := []string{}
 			k := 1 + r.intn(6)
 			for j := 0; j < k; j++ {
+				if j > 0 && r.chance(1, 4) {
+					// the same bytes again (same retained header bytes as an earlier step)
+					steps = append(steps, steps[r.intn(len(steps))])
+					continue
+				}
 				switch kind {
 				case "ph":
 					h := randHeaders(r, wcfg)
@@ -269,7 +274,11 @@ func generate(family string, n int, seed uint64, out *bufio.Writer) {
 					steps = append(steps, hexs(b))
 				}
 			}
-			p("hist %s %s", kind, strings.Join(steps, ","))
+			if r.chance(1, 2) {
+				p("hist %s %s dirty", kind, strings.Join(steps, ","))
+			} else {
+				p("hist %s %s", kind, strings.Join(steps, ","))
+			}
 		}
 	case "use":
 		for i := 0; i < n; i++ {
@@ -475,6 +484,7 @@ func genCSOp(r *rng, c, wc *genCfg, p func(string, ...any)) {
 	var src string
 	if kind == "bad" {
 		src = "val:-"
+		ptr = []string{"p", "v", "u", "up", "hp", "b"}[r.intn(6)]
 	} else if r.chance(1, 2) {
 		// decoded parent: any accepted wire encoding (non-canonical protected bytes included)
 		dk := kind
